@@ -1,6 +1,6 @@
 (* Model/C06Run.v - case type and checker evaluated on harness-generated cases (C06) *)
 From Coq Require Import ZArith Bool List.
-From ReqV Require Export Lib.Bytes Model.H2Flow Model.H2Monitor.
+From ReqV Require Export Lib.Bytes Model.H2Flow Model.H2Monitor Model.H2Conn Model.H2TraceSpec.
 Import ListNotations.
 Open Scope Z_scope.
 
@@ -21,7 +21,7 @@ Inductive quiesce_obs :=
 Inductive c06_case :=
 | FlowCase (ops : list fop) (final : list Z)
 | ConstCase (name : bytes) (val : Z)
-| TraceCase (evs : list ev) (verdict : option (nat * Z)) (q : option quiesce_obs).
+| TraceCase (hprio : bool) (evs : list ev) (verdict : option (nat * Z)) (q : option quiesce_obs).
 
 Definition verdict_eqb (a b : option (nat * Z)) : bool :=
   match a, b with
@@ -58,17 +58,79 @@ Fixpoint lookup_const (n : bytes) (t : list (bytes * Z)) : option Z :=
   | (k, v) :: r => if bytes_eqb k n then Some v else lookup_const n r
   end.
 
+(* ---- the client machine on the real trace ----
+   The client's SETTINGS handling (conn_step on ESettings = processSettings) is replayed at every
+   SETTINGS ACK the real client wrote, with the oldest unacknowledged SETTINGS frame of the peer;
+   every header block the real client wrote (HEADERS + CONTINUATIONs, new stream or trailers) must
+   be exactly the fragmentation hdr_frames computes from the machine's MAX_FRAME_SIZE at that
+   point (both are fixed under cc.wmu, so the comparison does not depend on scheduling). *)
+Definition frame_eqb (a b : frame) : bool :=
+  match a, b with
+  | FHeaders s l eh es, FHeaders s' l' eh' es' => (s =? s') && (l =? l') && Bool.eqb eh eh' && Bool.eqb es es'
+  | FContinuation s l eh, FContinuation s' l' eh' => (s =? s') && (l =? l') && Bool.eqb eh eh'
+  | _, _ => false
+  end.
+
+Fixpoint frames_eqb (a b : list frame) : bool :=
+  match a, b with
+  | [], [] => true
+  | x :: a', y :: b' => frame_eqb x y && frames_eqb a' b'
+  | _, _ => false
+  end.
+
+Definition block_len (blk : list frame) : Z :=
+  fold_right (fun f acc => match frame_len f with Some l => l + acc | None => acc end) 0 blk.
+
+Definition block_ok (c : conn) (blk : list frame) : bool :=
+  match blk with
+  | FHeaders sid _ _ es :: _ =>
+      frames_eqb (hdr_frames sid (block_len blk - cc_prio_len c) (cc_max_frame c) (cc_prio_len c) es) blk
+  | _ => false
+  end.
+
+Fixpoint replay (c : conn) (pend : list (list (Z * Z))) (blk : list frame) (evs : list ev) : bool * conn :=
+  match evs with
+  | [] => (true, c)   (* a trace cut off inside a block (connection torn down, log cap) is not judged *)
+  | P (FSettings kvs) :: r => replay c (pend ++ [kvs]) blk r
+  | P _ :: r => replay c pend blk r
+  | C FSettingsAck :: r =>
+      match pend with
+      | kvs :: p' => replay (fst (conn_step c (ESettings kvs))) p' blk r
+      | [] => (false, c)
+      end
+  | C (FHeaders sid len eh es) :: r =>
+      if eh then let '(b, c') := replay c pend [] r in (block_ok c [FHeaders sid len eh es] && b, c')
+      else replay c pend [FHeaders sid len eh es] r
+  | C (FContinuation sid len eh) :: r =>
+      let blk' := blk ++ [FContinuation sid len eh] in
+      if eh then let '(b, c') := replay c pend [] r in (block_ok c blk' && b, c')
+      else replay c pend blk' r
+  | C _ :: r => replay c pend blk r
+  end.
+
+Definition replay_ok (hprio : bool) (evs : list ev) (q : option quiesce_obs) : bool :=
+  let '(b, c) := replay (conn0 (if hprio then 5 else 0) 0 0 0) [] [] evs in
+  b && match q with
+       | Some (QObs _ _ _ _ mf ms iw _) => (cc_max_frame c =? mf) && (cc_max_streams c =? ms) && (cc_init_win c =? iw)
+       | None => true
+       end.
+
 Definition c06_check (c : c06_case) : bool :=
   match c with
   | FlowCase ops final =>
       let '(ok, v) := fvm_run fvm0 ops in ok && zlist_eqb (fvm_state v) final
   | ConstCase n val =>
       match lookup_const n const_table with Some v => v =? val | None => false end
-  | TraceCase evs verdict q =>
+  | TraceCase hprio evs verdict q =>
       let '(v, m) := monitor_run mon0 evs 0 in
       verdict_eqb v verdict &&
-      match v, q with
-      | None, Some qo => quiesce_ok m qo
-      | _, _ => true
+      match v with
+      | None =>
+          (* an admissible trace also satisfies the stand-alone predicates and is what the
+             client machine produces *)
+          match hb_run 0 evs with Some _ => true | None => false end && css_ok [] evs &&
+          replay_ok hprio evs q &&
+          match q with Some qo => quiesce_ok m qo | None => true end
+      | Some _ => true
       end
   end.
